@@ -22,6 +22,9 @@ from . import c17_model as M
 from . import c18gdef as G
 from .c17_model import NODE
 
+# feaLib `Anchor(x, y)` nodes: the two coordinates as declared fields (so that callers of _getAnchors can read them through its contract)
+CLASSES[NODE].fields.setdefault("x", INT)
+CLASSES[NODE].fields.setdefault("y", INT)
 cls("c18_CW", fields={"context": Ref("c18_DCtx"), "options": Ref("c18_DOpts")}, repo="ufo2ft.featureWriters.cursFeatureWriter:CursFeatureWriter",
     notes="a CursFeatureWriter with its context set")
 
@@ -39,37 +42,26 @@ contract(
     locals=dict(_src.locals),
 )
 
-# ---- _getAnchors ---------------------------------------------------------------------------------------------------------------------------
-# Since /repo d6899d5 the exported glyph is passed in and the coordinates are those of ITS first anchor of the name (before: looked up by name in
+# ---- _firstAnchorNamed, _getAnchors -----------------------------------------------------------------------------------------------------------
+# Since /repo 7e69b18 the exported glyph is passed in and the coordinates are those of ITS first anchor of the name (before: looked up by name in
 # the context's font, finding F-C18-b).  If the exported glyph has no anchor of the name the code still falls back to the font's glyph.
-@M.shim_function("reversed", "reversed(xs) for a list: consumed as a sequence r with len(r) == len(xs) and r[i] == xs[len(xs) - 1 - i] (library semantics of the builtin)")
-def _reversed(ex, st, args, kwargs, node):
-    from pyvc.core import Unsupported, fresh_name, lift
+_G = "glyph.anchors"
+contract(
+    "ufo2ft.featureWriters.cursFeatureWriter:CursFeatureWriter._firstAnchorNamed",
+    props=["C18"],
+    params={"glyph": Ref("c18_UGlyph"), "anchorName": STR},
+    returns=Opt(Ref("c18_UAnchor")),
+    ensures={
+        "none-iff-no-such-anchor": f"iff(result is None, not any({_G}[b].name == anchorName for b in range(len({_G}))))",
+        # the FIRST anchor of that name
+        "first-of-that-name": f"implies(result is not None, any({_G}[f] == result and {_G}[f].name == anchorName and all({_G}[b].name != anchorName for b in range(f)) for f in range(len({_G}))))",
+    },
+    canaries={"always-none": "result is None"},
+    loops={"for anchor in glyph.anchors": Loop(index="i", invariants={"none-so-far": f"all({_G}[b].name != anchorName for b in range(i))"})},
+)
 
-    (v,) = args
-    if kwargs or not isinstance(v.ty, T.List) or v.is_py:
-        raise Unsupported(f"reversed() of {v.ty}", node)
-    s = lift(v)
-    r = z3.Function("c18_reversed_" + T._mangle(v.ty.elem), v.ty.sort(), v.ty.sort())(s)
-    if ("c18reversed", r.get_id()) not in st.ghost:
-        st.ghost[("c18reversed", r.get_id())] = r
-        i = z3.Int(fresh_name("ri"))
-        st.assume(z3.Length(r) == z3.Length(s))
-        st.assume(z3.ForAll([i], z3.Implies(z3.And(0 <= i, i < z3.Length(s)), r[i] == s[z3.Length(s) - 1 - i])))
-        st.assume(z3.ForAll([i], z3.Implies(z3.And(0 <= i, i < z3.Length(s)), s[i] == r[z3.Length(s) - 1 - i])))  # the same fact, read from xs
-    return Val(v.ty, r)
-
-
-from pyvc.symex import FuncRef as _FuncRef  # noqa: E402
-
-REVERSED = M.native_global(Val.obj(_FuncRef(_reversed, "c17shim.reversed")), reversed)
 _FG = "self.context.font.glyphs"
 _A = f"{_FG}[glyphName].anchors"
-_G = "glyph.anchors"
-_R = "reversed(glyph.anchors)"
-
-
-_ANCH = "anchors = {a.name: a for a in reversed(glyph.anchors)} if glyph is not None else {}"
 
 
 def _own(nm):
@@ -80,7 +72,7 @@ def _own(nm):
 def _side(k, nm):
     r = f"result[{k}]"
     return {
-        # the exported glyph's own FIRST anchor of the name, rounded
+        # the exported glyph's own FIRST anchor of the name, rounded (contour-less glyphs included: the test is `glyph is not None`)
         f"{nm}-at-own-rounded-coordinates": f"implies({_own(nm)}, {r} is not None and {r}.kind == 'Anchor' and any({_G}[f].name == {nm}Name and all({_G}[b].name != {nm}Name for b in range(f))"
         f" and {r}.x == c18_round({_G}[f].x) and {r}.y == c18_round({_G}[f].y) for f in range(len({_G}))))",
         # otherwise (no glyph given, or it has no such anchor): looked up by name in the context's font
@@ -90,25 +82,17 @@ def _side(k, nm):
     }
 
 
-# NOT YET DEDUCTIVE: the name -> first-anchor dict is built as `{a.name: a for a in reversed(glyph.anchors)}`; its characterisation ("the value
-# of key n is the FIRST anchor named n") needs index arithmetic through the reversal plus beta-reduction of the engine's array-lambda encoding of
-# computed-key dict comprehensions, and some of the steps time out in every solver configuration (notes/C18.md).  The clauses about WHICH
-# coordinates are used are therefore `bounded_ensures` (checked on the real function by the Runtime harness below, never counted as proved);
-# deductively only the shape of the result is proved.
 contract(
     "ufo2ft.featureWriters.cursFeatureWriter:CursFeatureWriter._getAnchors",
     props=["C18"],
     params={"self": Ref("c18_CW"), "glyphName": STR, "entryName": STR, "exitName": STR, "glyph": Opt(Ref("c18_UGlyph"))},
     returns=Tuple(Opt(Ref(NODE)), Opt(Ref(NODE))),
-    globals={"ast": M.fea_shim(), "isinstance": M.ISINSTANCE, "reversed": REVERSED},
+    globals={"ast": M.fea_shim(), "isinstance": M.ISINSTANCE},
     requires=["not self.context.isVariable"],
-    ensures={
-        "anchor-nodes": "(result[0] is None or result[0].kind == 'Anchor') and (result[1] is None or result[1].kind == 'Anchor')",
-        "two-nodes": "implies(result[0] is not None and result[1] is not None, result[0] != result[1])",
-    },
-    bounded_ensures={**_side(0, "entry"), **_side(1, "exit")},
-    canaries={"entry-always-null": "result[0] is None", "exit-always-null": "result[1] is None"},
-    locals={"entryAnchor": Opt(Ref(NODE)), "exitAnchor": Opt(Ref(NODE)), "anchors": Dict(Opt(STR), Ref("c18_UAnchor"))},
+    ensures={**_side(0, "entry"), **_side(1, "exit"),
+             "two-nodes": "implies(result[0] is not None and result[1] is not None, result[0] != result[1])"},
+    canaries={"entry-always-null": "result[0] is None", "exit-not-rounded": "result[1] is None or result[1].x == 0"},
+    locals={"entryAnchor": Opt(Ref(NODE)), "exitAnchor": Opt(Ref(NODE)), "entry": Opt(Ref("c18_UAnchor")), "exit_": Opt(Ref("c18_UAnchor"))},
 )
 
 # ---- _getCursiveAnchorPairs ------------------------------------------------------------------------------------------------------------------
@@ -321,3 +305,12 @@ CONTRACTS[_GA_KEY + "#c18_CW"].runtime = Runtime(G.getanchor_cases, lambda d: G.
                                                   call=lambda fn, a: fn(a["self"], a["glyphName"], a["anchorName"], anchor=a["anchor"]))
 for _v in ("only", "every"):
     CONTRACTS[GCP + "#" + _v].runtime = Runtime(curs_cases, lambda d: {"glyphs": list(curs_writer(d).getOrderedGlyphSet().items())}, call=lambda fn, a: fn(a["glyphs"]))
+
+
+def _first_build(d):
+    w = curs_writer(d)
+    g = _exported_copy(w, d["g"] if d["g"] in w.context.font else "a", d["shift"])
+    return {"glyph": g, "anchorName": d["pair"][0]}
+
+
+CONTRACTS["ufo2ft.featureWriters.cursFeatureWriter:CursFeatureWriter._firstAnchorNamed"].runtime = Runtime(curs_cases, _first_build, call=lambda fn, a: fn(a["glyph"], a["anchorName"]))
